@@ -162,7 +162,10 @@ pub fn scenario(idx: usize, seed: u64, steps: usize) -> ScenarioResult {
             let kind = rng.gen_range(0..100);
             let id = w.next_id();
             let act: &'static str;
-            let open = tokio::time::timeout(Duration::from_secs(2), conn.open_bi()).await;
+            // stream credit comes back only after the victim has processed the adversary's earlier
+            // resets (retransmitted under loss): be patient before calling it a leak
+            let patience = if held_open.len() < 40 { 30 } else { 2 };
+            let open = tokio::time::timeout(Duration::from_secs(patience), conn.open_bi()).await;
             let (mut tx, mut rx) = match open {
                 Ok(Ok(s)) => s,
                 Ok(Err(_)) => continue,
@@ -321,7 +324,10 @@ pub fn scenario(idx: usize, seed: u64, steps: usize) -> ScenarioResult {
                 let timeout_hdr_zero = false;
                 let _ = timeout_hdr_zero;
                 let held = held_open.len();
-                let resp = tokio::time::timeout(Duration::from_micros(honest_bound.max(2_000_000)), rx.read_to_end(1 << 22)).await;
+                // under injected loss a single stream may sit through several retransmission
+                // back-offs; "stops serving" is judged with a long virtual-time horizon there
+                let probe_wait = if loss > 0.0 { 60_000_000 } else { honest_bound.max(2_000_000) };
+                let resp = tokio::time::timeout(Duration::from_micros(probe_wait), rx.read_to_end(1 << 22)).await;
                 let fits = max_frame.map(|m| parsed.body.len() <= m && refwire::request_header(&parsed.route, &parsed.headers).len() <= m && (resp_len as usize) <= m).unwrap_or(true);
                 if held < 50 && conn.close_reason().is_none() && fits {
                     match resp {
@@ -387,13 +393,17 @@ pub fn scenario(idx: usize, seed: u64, steps: usize) -> ScenarioResult {
         // malformed requests must not reach the handler; what reaches it must be a valid request
         let mut served_from_adversary = 0u64;
         {
-            let g = w.log.lock();
+            let mut g = w.log.lock();
+            // requests written by the adversary (possibly with a mutated id header that collides with
+            // an honest id) are judged separately below: take them out of the honest history
+            let adv_starts: Vec<world::StartRec> = g.starts.iter().filter(|s| s.from_full == Some(y.0)).cloned().collect();
+            g.starts.retain(|s| s.from_full != Some(y.0));
             let mut st = world::DeliveryStats::default();
             let dv = world::check_delivery(&g, &mut st);
-            // starts caused by the adversary carry ids no honest caller sent: filter those
-            for p in dv.iter().filter(|p| !p.contains("that no caller sent")) {
+            for p in dv.iter() {
                 problems.push(format!("honest traffic: {p}"));
             }
+            g.starts.extend(adv_starts);
             let valid: Vec<refwire::ParsedRequest> = alog
                 .finished_strings
                 .iter()
@@ -463,7 +473,7 @@ pub fn run(ctx: &Ctx) -> i32 {
         property: "C06",
         tier,
         seed: ctx.seed,
-        scenarios: tier.pick(800, 30_000),
+        scenarios: tier.pick(6_000, 200_000),
         threads: super::threads(),
         watchdog: Duration::from_secs(300),
         budget: Duration::from_secs(tier.pick(120, 1200)),
